@@ -5,6 +5,8 @@ import (
 	"fmt"
 	"io"
 	"os"
+	"runtime"
+	"strings"
 	"time"
 )
 
@@ -92,6 +94,8 @@ type DiskEnv struct {
 	BudgetHit  bool
 	Fired      map[string]int // fault kind -> times fired (whole run)
 	FiredInOp  int            // faults fired in the current operation
+	// ... of which inside Collection.EvictSomeItems (which cannot report them)
+	FiredInEvict int
 	Counts     map[byte]int   // call class -> count (whole run)
 	Monitor    func(d *SimDisk, e *DiskOp)
 }
@@ -166,10 +170,30 @@ func (d *SimDisk) pre(class byte) (fault *Fault, budgetErr error) {
 		if f.K == k || (f.Sticky && k > f.K) {
 			d.env.Fired[f.Kind]++
 			d.env.FiredInOp++
+			if calledFrom("EvictSomeItems") {
+				d.env.FiredInEvict++
+			}
 			return f, nil
 		}
 	}
 	return nil, nil
+}
+
+// calledFrom reports whether a function whose name ends in fn is on the
+// calling goroutine's stack (used only when a fault fires).
+func calledFrom(fn string) bool {
+	pcs := make([]uintptr, 64)
+	n := runtime.Callers(2, pcs)
+	frames := runtime.CallersFrames(pcs[:n])
+	for {
+		fr, more := frames.Next()
+		if strings.HasSuffix(fr.Function, "."+fn) || strings.Contains(fr.Function, "."+fn+".") {
+			return true
+		}
+		if !more {
+			return false
+		}
+	}
 }
 
 func (d *SimDisk) log(op DiskOp) {
